@@ -741,7 +741,7 @@ MANIFEST = {
     "per-call and in a with-block, with the compatibility predicates): the exact result must be the prime product of SOME shortest chain, same-dimension conversions must be unchanged, unreachable targets must raise "
     "DimensionalityError, and nothing may remain available outside. All ordered pairs of the 79 contexts with <=2 rules (thorough: all ordered triples of the 13 with <=1) are stacked through 4 activation forms with "
     "per-(context, edge) primes, deciding 'most recent wins'. Parameter resolution (call keyword > enclosing context > declared default) is checked with prime-valued parameters through every form including the "
-    "decorator and context objects, and over ALL activation histories up to depth 3 (4) of 21 events on a registry whose four contexts (two declared in text, two built with Context()/add_context) start their rules at a derived dimension written by name: each activation, in each form, with or without its own parameter value, after every possible earlier activation, must convert with its own parameter, have its unit redefinition (and the units defined from it) in force, and leave nothing active or redefined; redefinitions with transitive dependents inside/outside/nested and on re-entry; every rule of the 7 bundled contexts is re-evaluated from its equation text with R1 monomials.",
+    "decorator and context objects, and over ALL activation histories up to depth 3 (4) of 21 events on a registry whose four contexts (two declared in text, two built with Context()/add_context) start their rules at a derived dimension written by name: each activation, in each form, with or without its own parameter value, after every possible earlier activation, must convert with its own parameter, have its unit redefinition (and the units defined from it) in force, and leave nothing active or redefined; a Context object edited between activations (a redefinition changed, another added, a rule added; every order x 3x3 activation forms): the edit is in force at the next activation; redefinitions with transitive dependents inside/outside/nested and on re-entry; every rule of the 7 bundled contexts is re-evaluated from its equation text with R1 monomials.",
     "note": "Trusted: the 40-line BFS reference and unique factorisation; R1 for bundled constants. Not asserted: which of several equally short chains is taken; which enclosing context supplies a parameter "
     "when several differ; compatible-unit listings under a context. Graphs with more than 4 rules or more than 4 dimensionalities are outside the bound.",
     "ref": "DESIGN.md §4 C11",
